@@ -538,7 +538,7 @@ _CYCLE = {}
 
 def manycandsprofile(rng):
     "more than 256 candidates (two-byte candidate ids in the profile's arrays): the contest is among candidates numbered above 256 and one below"
-    nc = rng.randint(258, 264)
+    nc = rng.randint(260, 266)
     hi = rng.sample(range(257, nc + 1), 3)
     lo = rng.randint(1, 256)
     a, b, c = hi
